@@ -545,21 +545,27 @@ def execCaptured (s : State E) (c : Comp E) : State E × Option (List E) × Opti
   let ex := captureExit r.1 en.2
   (ex.1, ex.2, r.2.2)
 
-/-- `CommandLine.__call__`: `set_strict_mode(False)`, run; a pybtex error that escapes is printed
-with `ERROR: ` and the status is 1, otherwise the status is `error_code`.
+/-- `CommandLine.__call__` around a `main` without options (the harness's own `CommandLine`
+subclass): `main` remembers `strict`, sets `error_code = 0` and `set_strict_mode(False)`, runs, and
+puts `strict` back in a `finally`; a pybtex error that escapes is printed with `ERROR: ` and the
+status is 1, otherwise the status is `error_code` — of THIS run, since it was reset at the start.
 Result: final state, the errors written to stderr with their prefix kind (`true` = ERROR), status. -/
 def commandLine (s : State E) (c : Comp E) : State E × List (Bool × E) × Nat :=
-  let r := exec (setStrict s false) c
+  let r := exec (setStrict { s with errorCode := 0 } false) c
   let warnings := (printedOf r.2.1).map fun e => (false, e)
   match r.2.2 with
-  | some f => (r.1, warnings ++ [(true, f)], 1)
-  | none => (r.1, warnings, r.1.errorCode)
+  | some f => (setStrict r.1 s.strict, warnings ++ [(true, f)], 1)
+  | none => (setStrict r.1 s.strict, warnings, r.1.errorCode)
 
 /-! ## `CommandLine.main` with its options (`pybtex`, `pybtex-convert`, `pybtex-format`)
 
-`main()` is `set_strict_mode(False)`, then `parse_args` — whose `--strict` callback calls
-`set_strict_mode(True)` while the options are read, in the order they are written — then the
-argument-count check (`print_help`, exit status 1), then `run`, then `sys.exit(error_code)`.
+`main()` remembers the caller's `strict`, sets `error_code = 0` and `set_strict_mode(False)`, then
+`parse_args` — whose `--strict` callback calls `set_strict_mode(True)` while the options are read,
+in the order they are written — then the argument-count check (`print_help`, exit status 1), then
+`run`, then `sys.exit(error_code)`; a `finally` puts the caller's `strict` back on EVERY way out
+(`sys.exit`, an option error, a pybtex error on its way to `__call__`).  So the exit status is that
+of this run only and the caller's reporting mode survives the call (repaired in /repo by 8c0015f;
+before, `error_code` was never cleared and `strict` was left `False`).
 `__call__` wraps it: a pybtex error that escapes is printed with `ERROR: ` and the status is 1.
 The only thing modelled of `optparse` is what it does to the error channel: the `--strict`
 callback, and that a rejected option ends the process with status 2 (`OptionParser.error`) after
@@ -601,22 +607,24 @@ structure Argv where
 `pybtex.io.stderr` with their prefix kind (`true` = `ERROR: `), exit status. -/
 def cliMain (numArgs : Nat) (perr : E) (s : State E) (a : Argv) (c : Comp E) :
     State E × List (Bool × E) × Nat :=
-  let s1 := setStrict s false
+  let s1 := setStrict { s with errorCode := 0 } false
+  -- the `finally` of `main`
+  let restore (t : State E) : State E := setStrict t s.strict
   match applyOpts perr s1 a.opts with
-  | (s2, some .usage) => (s2, [], 2)
-  | (s2, some .info) => (s2, [], 0)
-  | (s2, some (.raised e)) => (s2, [(true, e)], 1)
+  | (s2, some .usage) => (restore s2, [], 2)
+  | (s2, some .info) => (restore s2, [], 0)
+  | (s2, some (.raised e)) => (restore s2, [(true, e)], 1)
   | (s2, none) =>
-    if a.nargs ≠ numArgs then (s2, [], 1)
+    if a.nargs ≠ numArgs then (restore s2, [], 1)
     else
       let r := exec s2 c
       let warnings := (printedOf r.2.1).map fun e => (false, e)
       match r.2.2 with
-      | some f => (r.1, warnings ++ [(true, f)], 1)
-      | none => (r.1, warnings, r.1.errorCode)
+      | some f => (restore r.1, warnings ++ [(true, f)], 1)
+      | none => (restore r.1, warnings, r.1.errorCode)
 
-/-- several command lines run one after the other in the same interpreter (the module state is
-not reset in between: `error_code` is never cleared) -/
+/-- several command lines run one after the other in the same interpreter (nothing resets the
+module state in between: each `main` does what it needs itself) -/
 def cliRuns (numArgs : Nat) (perr : E) (s : State E) :
     List (Argv × Comp E) → State E × List (List (Bool × E) × Nat)
   | [] => (s, [])
